@@ -64,6 +64,7 @@ struct radio_state
     std::function< read_buffer() >                          buf_allocate_receive;
     std::function< write_buffer( read_buffer ) >            buf_received;
     std::function< write_buffer() >                         buf_next_transmit;
+    std::function< write_buffer( read_buffer ) >            buf_mic_failed;         // valid CRC, content that cannot be decoded
     // the world
     std::function< void( radio_state& ) >                   world_activity;
     // set by the radio that runs the real nRF52 front end (harness/nrf_bridge.hpp): the radio decides about scan requests itself,
@@ -92,6 +93,7 @@ public:
         buf_allocate_receive     = [ this ]() { return this->allocate_receive_buffer(); };
         buf_received             = [ this ]( read_buffer b ) { return this->received( b ); };
         buf_next_transmit        = [ this ]() { return this->next_transmit(); };
+        buf_mic_failed           = [ this ]( read_buffer ) { return this->next_transmit(); };
     }
 
     void schedule_advertisment( unsigned ch, const write_buffer& advertising_data, const write_buffer& response_data, delta_time when, const read_buffer& receive )
